@@ -280,7 +280,134 @@ def _scope_work(job):
     return r
 
 
+# ---- part 3: `with world.group():` blocks as the user writes them ------------------------------
+# The harness places simulators by setting `world.current_group` directly; what the *block* does
+# when it is nested, left normally or left by an exception that the caller handles (e.g. the
+# ScenarioError of a rejected connect()) is enumerated here: every well-nested program over
+#   s = start a simulator, ( = enter a group block, ) = leave it normally,
+#   ! = leave it by an exception raised inside the block and caught around it
+# up to a length bound.  Reference: a simulator belongs to exactly the blocks that textually
+# enclose its start() call.  Observable: a weak connection between two simulators is accepted
+# iff they share a (non-root) group.
+class _Boom(Exception):
+    pass
+
+
+def group_programs(max_len, max_sims=4, max_depth=3):
+    out = []
+
+    def rec(prog, depth, nsims):
+        if depth == 0 and nsims >= 2:
+            out.append(prog)
+        if len(prog) >= max_len:
+            return
+        if len(prog) + depth < max_len:      # room left to close everything
+            if nsims < max_sims:
+                rec(prog + "s", depth, nsims + 1)
+            if depth < max_depth and len(prog) + depth + 2 <= max_len:
+                rec(prog + "(", depth + 1, nsims)
+        if depth > 0:
+            rec(prog + ")", depth - 1, nsims)
+            rec(prog + "!", depth - 1, nsims)
+    rec("", 0, 0)
+    return [p for p in out if "(" in p]
+
+
+def run_group_program(prog, exc_kind="scenario"):
+    """execute the program with real nested `with world.group()` statements; returns violations"""
+    import mosaik
+    from mosaik.exceptions import ScenarioError
+    from . import stubs
+    from .vloop import VLoop
+    scen = dict(until=1, sims=[], conns=[])
+    r = Run(scen, dict(gates=()), None)
+    stubs.CTX = r
+    env.LOG_SINK.append(r.logs)
+    viol = []
+    try:
+        import asyncio
+        asyncio.set_event_loop(r.loop)
+        w = mosaik.World({"Stub": {"python": "mc.stubs:StubSim"}}, skip_greetings=True,
+                         asyncio_loop=r.loop)
+        r.world = w
+        placed = []          # (sid, tuple of enclosing block ids, entity)
+        counter = [0]
+        pos = [0]
+
+        def block(stack):
+            while pos[0] < len(prog):
+                op = prog[pos[0]]
+                pos[0] += 1
+                if op == "s":
+                    sid = "S%d" % len(placed)
+                    with warnings.catch_warnings():
+                        warnings.simplefilter("ignore")
+                        ent = w.start("Stub", sim_id=sid, spec=dict(sid=sid, type="event-based")).M()
+                    placed.append((sid, tuple(stack), ent))
+                elif op == "(":
+                    counter[0] += 1
+                    bid = counter[0]
+                    try:
+                        with w.group():
+                            how = block(stack + [bid])
+                            if how == "!":
+                                if exc_kind == "scenario" and len(placed) >= 2:
+                                    # a rejected connect() that the caller handles
+                                    w.connect(placed[0][2], placed[1][2], ("zz", "ti"))
+                                    raise AssertionError("connect() with an unknown attribute accepted")
+                                raise _Boom()
+                    except (_Boom, ScenarioError):
+                        pass
+                else:
+                    return op
+            return None
+        block([])
+        for (a, pa, ea), (b, pb, eb) in itertools.permutations(placed, 2):
+            share = bool(pa and pb and pa[0] == pb[0])
+            try:
+                with warnings.catch_warnings():
+                    warnings.simplefilter("ignore")
+                    w.connect(ea, eb, ("eo", "ti"), weak=True)
+                res = None
+            except ScenarioError:
+                res = "ScenarioError"
+            except Exception as e:  # noqa: BLE001
+                res = type(e).__name__
+            if share and res is not None:
+                viol.append(f"weak connection {a}->{b} rejected ({res}) although both were started "
+                            f"inside the same outermost group block (blocks {pa} / {pb})")
+            if not share and res != "ScenarioError":
+                viol.append(f"weak connection {a}->{b} {'accepted' if res is None else 'raised ' + res}"
+                            f" although the simulators share no group (blocks {pa} / {pb})")
+        try:
+            w.shutdown()
+        except Exception:  # noqa: BLE001
+            pass
+    finally:
+        env.LOG_SINK.pop()
+        stubs.CTX = None
+    case = dict(group_program=prog, exc_kind=exc_kind)
+    return [dict(prop="C11", kind="group-block-scoping", cls=None, case=case,
+                 msg=f"program {prog!r} (s=start, (=enter group block, )=leave, !=leave by a "
+                     f"handled {'ScenarioError of a rejected connect()' if exc_kind == 'scenario' else 'exception'}): {v}")
+            for v in viol[:2]]
+
+
+def _group_work(job):
+    prog, kind = job
+    try:
+        return dict(viol=run_group_program(prog, kind), n=1)
+    except Exception as e:  # noqa: BLE001
+        import traceback
+        return dict(error=f"{prog!r}/{kind}: " + repr(e)[:200] + traceback.format_exc()[-500:])
+
+
 def replay(doc):
+    if doc.get("case") and doc["case"].get("group_program"):
+        v = run_group_program(doc["case"]["group_program"], doc["case"].get("exc_kind", "scenario"))
+        for x in v:
+            print("REPRODUCED", x["kind"], x["msg"][:300])
+        return 1 if v else 0
     if doc.get("case"):
         c = doc["case"]
         v, _, _ = judge_call(c["st"], c["dt"], c["sg"], c["dg"], c["any_inputs"], c["cache"],
@@ -339,6 +466,19 @@ def check(prop, tier):
                 rep.report(v2, dict(kind="schedule", scenario=r["scen"], cfg=r["cfg"], name=r["name"],
                                     choices=v.get("choices"), names=v.get("names"),
                                     orig=dict(prop=v["prop"], kind=v["kind"])))
+        gp = group_programs(8 if tier == "quick" else 10)
+        gjobs = [(p_, k_) for p_ in gp for k_ in (("scenario", "other") if "!" in p_ else ("scenario",))]
+        ngp = 0
+        for res in pool.imap_unordered(_group_work, gjobs, chunksize=16):
+            if res.get("error"):
+                print("MACHINERY-ERROR", res["error"])
+                return 2
+            ngp += 1
+            for v in res["viol"]:
+                kinds[v["kind"]] = kinds.get(v["kind"], 0) + 1
+                if kinds[v["kind"]] <= 5:
+                    rep.report(v, dict(kind="call", module="mc.enum_c11", case=v["case"]))
+    total += ngp
     rc = rep.finish()
     cov = dict(
         states=total + sc["states"], transitions=total + sc["trans"],
@@ -348,7 +488,8 @@ def check(prop, tier):
              "scenario); non-trivial = the call was rejected",
         samples=[dict(case=dict(st="T", dt="H", sg="g", dg="g2", pairs=[["po", "mi"]], shift=0,
                                 weak=True, init=True), expect="ScenarioError: weak-no-shared-group")],
-        exhaustive=True, connect_calls=total, rejected=raised, scoping=sc,
+        exhaustive=True, connect_calls=total - ngp, rejected=raised, scoping=sc,
+        group_block_programs=ngp,
         violation_kinds=kinds,
     )
     evidence.write("C11", tier, "model_checking", cov,
@@ -356,6 +497,6 @@ def check(prop, tier):
                     "'leaves no data-flow behind' is judged on a generic walk of both SimRunner "
                     "objects and the entity graph before/after"],
                    time.time() - t0, len(rep.violations))
-    print(f"C11 {tier}: connect calls={total} rejected={raised} scoping={sc} "
+    print(f"C11 {tier}: group-block programs={ngp} connect calls={total - ngp} rejected={raised} scoping={sc} "
           f"violations={len(rep.violations)} wall={time.time() - t0:.1f}s")
     return rc
